@@ -123,6 +123,10 @@ def gen_params(name="polymer", outpath=Path("polymer.itp"), inpath=[],
         header = [ ' '.join(sys.argv) + "\n" ]
         header.append("Please cite the following papers:")
         for citation in meta_molecule.molecule.citations:
+            # citations the force field has no entry for (vermouth attaches its
+            # own key to every molecule) cannot be formatted
+            if citation not in meta_molecule.molecule.force_field.citations:
+                continue
             cite_string =  citation_formatter(meta_molecule.molecule.force_field.citations[citation])
             LOGGER.info("Please cite: " + cite_string)
             header.append(cite_string)
